@@ -24,7 +24,7 @@ PROFILES = {
     "C04": dict(world={"p_seg": 0.3}, w={"enable": 0.05, "disable": 0.02, "restart": 0.2}, steps=(10, 60)),
     "C05": dict(world={"p_seg": 0.3}, w={"add_edge": 5, "delete_edge": 4, "delete_node": 4, "enable": 0.05, "disable": 0.02, "restart": 0.2}, steps=(10, 60), division_bias=True),
     "C06": dict(world={"p_seg": 0.3}, w={"issue_ids": 1, "delete_node": 3, "enable": 0.05, "disable": 0.02, "restart": 0.2}, steps=(10, 60), explicit_tracks=True),
-    "C07": dict(world={"seg": True, "feats": "any"}, w={"paint": 8, "enable": 0.1, "disable": 0.05}, steps=(10, 50)),
+    "C07": dict(world={"seg": True, "feats": "any"}, w={"paint": 8, "enable": 0.1, "disable": 0.05}, steps=(10, 50), nopix=True),
     "C08": dict(world={"seg": True, "feats": "any"}, w={"paint": 8, "enable": 0.6, "disable": 0.3}, steps=(8, 40)),
     "C09": dict(world={"seg": True, "feats": "iou"}, w={"paint": 7, "add_edge": 5, "enable": 0.6, "disable": 0.4}, steps=(8, 40), iou_toggle=True),
     "C10": dict(world={}, w={"enable": 4, "disable": 3, "update_attrs": 3, "query": 0.3}, steps=(10, 50), toggle_ids=True),
@@ -61,7 +61,7 @@ def swarm(rng: random.Random, prop: str, tier: str) -> dict:
         "f1": rng.choice(p.get("f1", (0.0, 0.1, 0.1, 0.4))),
         "force": rng.choice([0.1, 0.5, 0.9]),
         "reinvert": p.get("reinvert", 0.0),
-        "flags": {k: True for k in ("bursty", "wild_edges", "division_bias", "explicit_tracks", "iou_toggle", "toggle_ids", "trap", "io", "subs") if p.get(k)},
+        "flags": {k: True for k in ("bursty", "wild_edges", "division_bias", "explicit_tracks", "iou_toggle", "toggle_ids", "trap", "io", "subs", "nopix") if p.get(k)},
         "subset": p.get("subset", 0.5),
         "f2": rng.choice([0.0, 0.0, 0.6]) if p.get("io") else 0.0,
         "sweep": 0.15 if (prop in ("C14", "C16") and tier == "thorough") else 0.0,
@@ -106,6 +106,7 @@ def gen_op(rng: random.Random, cfg: dict, kind: str | None = None) -> dict:
             force=force, reinvert=reinv,
             pix={"o": [rng.random() for _ in range(3)], "ext": [rng.randint(1, 3) for _ in range(3)], "pat": rng.choice(["box", "box", "scatter", "single"])},
             pos=[rng.random() for _ in range(3)], bogus_attrs=rng.random() < 0.15, reuse_dict=rng.random() < 0.3,
+            no_pixels_with_pos=bool(fl.get("nopix")) and rng.random() < 0.01,
         )
         if inval:
             op["invalid"] = rng.choice(["exists", "no_time", "no_track", "no_pos", "no_pos", "partial_pos", "id_overflow", "bad_pixels"])
